@@ -127,6 +127,13 @@ class ResumeOracle:
         self.cycle_no += 1
         if r.exc:
             return ("raised", {"cycle": c, "exception": r.exc[-1200:]})
+        # "emits" means standard output: every guess handed to print_guess in this process image must have reached the
+        # stdout seam by the time the process ended (what else is on stdout is C09's subject)
+        unwritten = collections.Counter(ctx.guesses) - collections.Counter(r.lines)
+        if unwritten:
+            return ("guess_generated_and_saved_as_done_but_never_written", {
+                "cycle": c, "generated": len(ctx.guesses), "stdout_lines": len(r.lines),
+                "examples": sorted(unwritten.elements())[:4], "in_restored_remainder": bool(r.remainder)})
         # 1. lines written by restore_omen, before any pop
         got = collections.Counter(r.remainder)
         if self.partial is None:
